@@ -57,6 +57,8 @@ type Frame struct {
 	defers   []deferRec
 	names    map[string]Val // source-level names (DebugRef), value or address (see nameIsAddr)
 	nameAddr map[string]bool
+	snaps    map[string]bool
+	nameDef  map[string]string // snap variables defined on some merged arms only: the condition under which they are
 	cut      map[*ssa.BasicBlock]bool
 	unrolled map[*ssa.BasicBlock]int
 	retTo    ssa.Value // value in the caller frame that receives the result (nil: discard)
@@ -116,6 +118,14 @@ func (st *State) clone() *State {
 		g.nameAddr = make(map[string]bool, len(f.nameAddr))
 		for k, v := range f.nameAddr {
 			g.nameAddr[k] = v
+		}
+		g.snaps = make(map[string]bool, len(f.snaps))
+		for k, v := range f.snaps {
+			g.snaps[k] = v
+		}
+		g.nameDef = make(map[string]string, len(f.nameDef))
+		for k, v := range f.nameDef {
+			g.nameDef[k] = v
 		}
 		g.cut = make(map[*ssa.BasicBlock]bool, len(f.cut))
 		for k, v := range f.cut {
@@ -628,5 +638,26 @@ func (st *State) typeFact(term string, t types.Type) {
 	if _, ok := n.Underlying().(*types.Struct); !ok {
 		return
 	}
-	st.assume("(or (= " + term + " null) (= (dyntype " + term + ") " + intLit(int64(st.e.typeTag(n))) + "))")
+	main := "(or (= " + term + " null) (= (dyntype " + term + ") " + intLit(int64(st.e.typeTag(n))) + "))"
+	if st.knows(main) {
+		return
+	}
+	st.assume(main)
+	// interior addresses are typed too: a field that is itself a struct has that struct's type, any other field is
+	// not an object of struct type (so a struct pointer cannot point into the middle of another object's scalars)
+	stt := n.Underlying().(*types.Struct)
+	if stt.NumFields() > 48 || len(term) > 200 {
+		return
+	}
+	var cs []string
+	for i := 0; i < stt.NumFields(); i++ {
+		tag := "0"
+		if fn, ok := stt.Field(i).Type().(*types.Named); ok {
+			if _, isS := fn.Underlying().(*types.Struct); isS {
+				tag = intLit(int64(st.e.typeTag(fn)))
+			}
+		}
+		cs = append(cs, "(= (dyntype (fld "+term+" "+intLit(int64(i))+")) "+tag+")")
+	}
+	st.assume(sImp("(not (= "+term+" null))", sAnd(cs...)))
 }
